@@ -22,6 +22,10 @@ GUARDS = [
     (r"S\.labelsOKB = true", "(family_labelsOK _ {hS})"),
     (r"textStableC S = true", "(family_textStableC _ {hS})"),
     (r"S\.closableB = true", "(family_closable _ {hS})"),
+    (r"joinCompatB S = true", "(family_joinCompat _ {hS})"),
+    (r"reopenOKB S = true", "(family_reopenOK _ {hS})"),
+    (r"textAbsorbB S = true", "(family_textAbsorb _ {hS})"),
+    (r"inlineUniformB S = true", "(family_inlineUniform _ {hS})"),
     (r"PM\.FromDom\.leafOkB S = true", "(family_leafOk _ {hS})"),
     (r"PM\.FromDom\.textStableB S = true", "(family_textStable _ hS)"),
     (r"C01\.TextStable S", "(textLoop_of_B _ (family_textLoop _ {hS})).stable"),
@@ -65,7 +69,8 @@ TARGETS = {
             "insertInline_valid_of_norm", "replace_valid_of_inv_of_norm", "insertInline_valid", "replace_valid_of_inv",
             "fit_emits_valid_payload", "payloadInv_step_gen", "fit_emits_valid_payload_cut", "fit_replace_recorded_valid",
             "delete_recorded_valid", "fit_no_raise_partial", "fit_raise_sites",
-            "trivialFit_delete_applies", "delete_applies_flat", "delete_never_raises_flat"],
+            "trivialFit_delete_applies", "delete_applies_flat", "delete_never_raises_flat",
+            "delete_applies", "delete_never_raises", "deleteRange_applies", "deleteRange_never_raises"],
     "C12": ["canJoin_join_applies", "liftTarget_lift_applies_flat", "liftTarget_lift_applies", "insertPoint_insert_applies",
             "dropPoint_drop_applies_closed", "joinPoint_join_applies", "insertPoint_insert_text_applies",
             "insertPoint_insert_marked_top"],
@@ -188,7 +193,7 @@ def gen(prop):
                     concl = re.sub(r"\bdfas\b", "(S.nodes.toList.map (·.dfa))", concl)
                 continue
             if hit is not None:
-                if "family_textStable" in hit:
+                if "family_textStable _" in hit:        # (not `family_textStableC`, which holds of the whole family)
                     used_dom = True
                 args += [hit] * len(names)
                 continue
